@@ -46,7 +46,8 @@ VisitIsas(v, ii, i) == IF i > Len(ii) \/ v.crashed THEN v ELSE VisitIsas(VisitGr
 RootPost(v, t) == IF v.crashed THEN v ELSE
                   LET v1 == W(v, SegOf("GE", <<ToString(v.st_loops), t.nodes[t.gs].info[3]>>))
                       v2 == IF t.nodes[t.isa].x = "1" THEN W(v1, SegOf("TA1", <<t.nodes[t.isa].id, DATE, TIME, "#ACK", "#NOTE">>)) ELSE v1
-                  IN W(v2, SegOf("IEA", <<"1", ICN>>))
+                  IN IF t.nodes[t.isa].x = "1" /\ IsaEleBad(PIsa(t, t.isa)) THEN [v1 EXCEPT !.crashed = TRUE] ELSE
+                     W(v2, SegOf("IEA", <<"1", ICN>>))
 Visit997(t) == RootPost(VisitIsas(RootPre(V0, t), Nested(t), 1), t)
 Ack997(t) == Visit997(t).out
 =============================================================================
